@@ -241,8 +241,8 @@ class PoolWorld(WorldBase):
 
     def gen_zip_pool(self, ch):
         n = ch.randint(1, 5)
-        frames = [gen_frame(ch, 'z%d' % i, nr=ch.randint(1, 4), nc=ch.randint(1, 3), hier=False) for i in range(n)]
-        op = {'op': 'zip_pool', 'frames': frames, 'fmt': ch.choice(['zip_pickle', 'zip_csv', 'zip_tsv']),
+        frames = [gen_frame(ch, 'z%d' % i, nr=ch.randint(1, 4), nc=ch.randint(1, 3), hier=ch.chance(0.4)) for i in range(n)]
+        op = {'op': 'zip_pool', 'frames': frames, 'cfgmap': ch.chance(0.6), 'fmt': ch.choice(['zip_pickle', 'zip_csv', 'zip_tsv']),
               'wk': ch.choice([None, 1, 2, 4]), 'wc': ch.randint(1, n + 1), 'rk': ch.choice([None, 1, 2, 4]), 'rc': ch.randint(1, n + 1),
               'mp': ch.choice([None, None, 1, 2]), 'access': ch.choice(['values', 'items', 'list', 'one_by_one'])}
         if ch.chance(self.config['p_fault']):
@@ -771,7 +771,13 @@ class PoolWorld(WorldBase):
         site = f'StoreZip({fmt}).workers'
 
         def cfg(wk, wc, rk, rc):
-            return sf.StoreConfig(index_depth=1, write_max_workers=wk, write_chunksize=wc, read_max_workers=rk, read_chunksize=rc)
+            def one(depth):
+                return sf.StoreConfig(index_depth=depth, write_max_workers=wk, write_chunksize=wc, read_max_workers=rk, read_chunksize=rc)
+            depths = {s['name']: (2 if s['hier'] else 1) for s in op['frames']}
+            if op.get('cfgmap') or len(set(depths.values())) > 1:
+                # per-label configuration (index depth differs per frame); worker settings must match the default
+                return sf.StoreConfigMap({k: one(d) for k, d in depths.items()}, default=one(1))
+            return one(next(iter(depths.values())))
 
         def run(workers, path):
             c = cfg(op['wk'], op['wc'], op['rk'], op['rc']) if workers else cfg(None, 1, None, 1)
